@@ -274,9 +274,11 @@ CHECKS["C11"] = dict(
           "rollback of function declarations, the catch-block unwinding, parsingEnd's reverse-order restore loop); theorems "
           "(BlocV.Proofs.C11) for EVERY event sequence, EVERY context, EVERY structure hash: parsingEnd_restores, "
           "clause_flags_restored, reject_restores_symbols (names, types, decls, flags, exec depth, parsing flag of everything "
-          "pre-existing), accept_keeps_flags, reject_restores_functions_partial (texts that declare no pre-existing (name, arity)), "
-          "context_usable_after_reject; the full function clause is FALSE on this tree: negation proved at three witnesses, and the "
-          "symbol clause needs 'tuple symbols carry their decl' (negation proved) — three recorded known findings. Tied to /repo by "
+          "pre-existing), accept_keeps_flags, reject_restores_functions_partial (texts that do not COMPLETE a redefinition of a pre-existing (name, arity) before "
+          "their error; failed redefinitions anywhere in the table are rolled back: failed_redefinition_rolled_back_not_last / "
+          "_after_new, null_tuple_symbol_restored — positive since the two fix: commits), context_usable_after_reject; the full "
+          "function clause is still FALSE on this tree: negation proved at the complete-redefinition witness — one recorded known "
+          "finding. Tied to /repo by "
           "snapshotting the context at every reader call of Parser::parse / parseStatement on one-token-per-line texts: every "
           "observed snapshot must be explained as a model event, the context after a rejected text must equal the model's and, "
           "outside the finding regions, the context before (values, flags, function identities included); texts truncated and "
